@@ -115,8 +115,8 @@ class WatermarkPoolSink(PoolSink):
       sink = self._sink_provider.CreateSink(self._properties)
       # TODO: we could get a better failure case here by detecting that Open()
       # failed and retrying, however for now the simplest option is to just fail.
-      sink.Open().wait()
       sink.on_faulted.Subscribe(self.__PropagateShutdown)
+      sink.Open().wait()
       return sink
     else:
       if len(self._waiters) + 1 > self._max_queue_size:
@@ -186,6 +186,8 @@ class WatermarkPoolSink(PoolSink):
   def _OpenImpl(self):
     sink = self._Get()
     self._Release(sink)
+    if self._state == ChannelState.Closed:
+      raise Exception('Unable to open a connection to %s' % self.endpoint)
     self._state = ChannelState.Open
 
   def _FlushCache(self):
